@@ -17,6 +17,8 @@ BLOCKS = (
     # a user function (registered with AddFunction before the solve) in equations whose arguments are known at k=0: a constant, a simultaneous
     # variable, and variables nothing depends on (set aside as decorative when reduction is on)
     "c = 3.0\nbase = fn(c)\nshare = fn(G)/100.\nw = 0.5*w + base\nrep = fn(c) + w\nw(0) = SYM_IC\nexogenous\nG = SYM_G",
+    # comparison-valued variables nothing depends on (flags computed from a constant / an exogenous value): a Python bool at k=0
+    "y = 2.\nflag = y > 1.\nhigh = G > 3.\nw = 0.5*w + G\nw(0) = SYM_IC\nexogenous\nG = SYM_G",
 )
 
 
@@ -130,6 +132,14 @@ def check_k0_block10(ic: float, g: float) -> bool:
     post: _
     """
     return _same(BLOCKS[10], ic, g)
+
+
+def check_k0_block11(ic: float, g: float) -> bool:
+    """
+    pre: -100 <= ic <= 100 and -100 <= g <= 100
+    post: _
+    """
+    return _same(BLOCKS[11], ic, g)
 
 
 def reach_k0(ic: float, g: float) -> bool:
